@@ -195,6 +195,7 @@ func CheckC05(spec *vexec.CaseSpec, out *vexec.Outcome, controlled bool) (rs []R
 	}
 	// (c) the run ends
 	obligations++
+	lostAtSchedLevel := 0
 	if out.Hung {
 		for name, s := range by {
 			l := get(name)
@@ -211,6 +212,21 @@ func CheckC05(spec *vexec.CaseSpec, out *vexec.Outcome, controlled bool) (rs []R
 					}
 				}
 			}
+			// Scheduler level (Scheduler.Signal / Cancel called directly): there is nobody who
+			// sends the signal again or escalates — that is the agent's part of the statement, and
+			// the agent-level cases judge it. A signal that reached the step between the creation
+			// of its command and the start of its process is lost for a real process too
+			// (kill(2) has nothing to hit yet): counted, not a verdict at this level.
+			lostEarly := false
+			for i := range l.kills {
+				if strings.HasSuffix(l.killSigs[i], "|lost") {
+					lostEarly = true
+				}
+			}
+			if spec.Level != "agent" && nk == 0 && lostEarly {
+				lostAtSchedLevel++
+				continue
+			}
 			switch {
 			case s.IgnoreTerm && !gotKill:
 				add("no-sigkill:"+scen, "step %s ignores the stop signal and was never sent SIGKILL: the run did not end within the bound after the stop (event %d); signals received: %d", name, T, nk)
@@ -220,7 +236,7 @@ func CheckC05(spec *vexec.CaseSpec, out *vexec.Outcome, controlled bool) (rs []R
 				add("hang:"+scen, "step %s still executing when the bound after the stop (event %d) expired", name, T)
 			}
 		}
-		if len(rs) == 0 {
+		if len(rs) == 0 && lostAtSchedLevel == 0 {
 			add("hang:"+scen, "the run did not return within the bound after the stop (event %d) although no step was executing", T)
 		}
 		return rs, obligations
